@@ -128,12 +128,25 @@ func VerifC02Reuse() {
 		verifAssert("C02.reuse.profile", used.ExtensionProfile == fresh.ExtensionProfile)
 	}
 	fi, ui := fresh.GetExtensionIDs(), used.GetExtensionIDs()
-	verifAssert("C02.reuse.ext-count", len(fi) == len(ui))
-	for i := range fi {
-		verifAssert("C02.reuse.ext-id", fi[i] == ui[i])
+	verifAssert("C02.reuse.ext-ids", len(fi) == len(ui))
+	// the exported element list itself, not only what the accessors show
+	verifAssert("C02.reuse.ext-count", len(fresh.Extensions) == len(used.Extensions))
+	for i := range fresh.Extensions {
+		verifAssert("C02.reuse.ext-id", fresh.Extensions[i].id == used.Extensions[i].id)
 		verifAssert("C02.reuse.ext-val", verifEqBytes(fresh.Extensions[i].payload, used.Extensions[i].payload))
 	}
 	verifAssert("C02.reuse.payload", verifEqBytes(used.Payload, fresh.Payload))
 	verifAssert("C02.reuse.padsize", used.PaddingSize == fresh.PaddingSize)
+	// and what the two receivers serialise to (thorough tier only: the encoder on a symbolic layout is query-heavy)
+	if verifBound("C02.reuse-marshal") != 1 {
+		verifCover("C02.reuse.accept")
+		return
+	}
+	fb, ferr := fresh.Marshal()
+	ub, uerr := used.Marshal()
+	verifAssert("C02.reuse.marshal-errorness", (ferr == nil) == (uerr == nil))
+	if ferr == nil && uerr == nil {
+		verifAssert("C02.reuse.marshal-bytes", verifEqBytes(fb, ub))
+	}
 	verifCover("C02.reuse.accept")
 }
